@@ -71,6 +71,13 @@ func (e *Engine) buildQuery(o *Obligation, axioms []axiomTerm, models bool) stri
 	body.WriteString("(assert (not " + o.Goal + "))\n")
 	syms := map[string]bool{}
 	symbolsIn(body.String(), syms)
+	// entry-heap well-formedness facts of this function, for the arrays that occur
+	for _, f := range e.funcFacts[o.Func] {
+		if k := strings.Index(f, "|"); k > 0 && syms[f[:k]] {
+			body.WriteString("(assert " + f[k+1:] + ")\n")
+			symbolsIn(f[k+1:], syms)
+		}
+	}
 	// relevant axioms: share an uninterpreted function with the query (fixpoint)
 	var axText bytes.Buffer
 	included := make([]bool, len(axioms))
@@ -139,6 +146,7 @@ type solveOpts struct {
 	all      bool // wait for every solver (disagreement detection)
 	workers  int
 	replay   *ReplaySpec
+	property string
 }
 
 type cacheEntry struct {
